@@ -54,10 +54,13 @@ class TapeImageContentExtractor(TapeImageWorker):
                     raise ValueError(
                         f"invalid.file.name:{desc.fileName}.{desc.fileExtension}"
                     )
-                with open(
-                    os.path.join(targetDir, f"{desc.fileName}.{desc.fileExtension}"),
-                    "wb",
-                ) as f:
+                targetPath = os.path.join(
+                    targetDir, f"{desc.fileName}.{desc.fileExtension}"
+                )
+                if os.path.abspath(targetPath) == os.path.abspath(args.archive):
+                    # a file named like the archive, extracted beside it
+                    raise ValueError(f"would.overwrite.the.archive:{targetPath}")
+                with open(targetPath, "wb") as f:
                     f.write(fileContent)
                 listener.onEndBlock()
             else:
